@@ -839,7 +839,10 @@ class Gen:
             if k:
                 self.punct(',', 'opt')
             self.name_token(self.g(), allow_quoted=False)
-            self.emit('name', rng.choice(TYPE_POOL), 'req')
+            if rng.random() < 0.15:
+                self.kw('DOUBLE PRECISION')      # a two-word type name
+            else:
+                self.emit('name', rng.choice(TYPE_POOL), 'req')
             x = rng.random()
             if x < 0.25:
                 self.kw('NOT NULL')
